@@ -17,21 +17,9 @@ RACE_OVERLAY = dict(OVERLAY)
 RACE_OVERLAY["core/executors/verif_c11_free_test.go"] = os.path.join(
     vlib.HARNESS, "overlay", "executors", "verif_c11_free_test.go")
 
-F6_ID = "F6-wait-skips-handed-over-batch"
+# F6 (Wait skipped a batch handed over by a concurrent Add) is fixed in go-zero; its schedules stay in the
+# corpus as regression cases and nothing is suppressed any more.
 
-
-def _patched_source():
-    """Which LTS variant the tree under test is compared with: the F6 repair (flusher enters the
-    execution before giving up inflight; Wait blocks on inflightCond until inflight == 0) is
-    recognised by its condition variable; anything else is compared with the unpatched LTS."""
-    try:
-        src = open(os.path.join(vlib.REPO, "core", "executors", "periodicalexecutor.go")).read()
-    except OSError:
-        return False
-    return "inflightCond" in src
-
-
-PATCHED = _patched_source()
 
 
 def drain_ops(case):
@@ -97,24 +85,6 @@ def analyse(case, obs):
     return {"fails": fails, "hist": hist, "started": started, "completed": completed, "nwaits": nwaits}
 
 
-def f6_shape(an, f):
-    """The failing Wait is an instance of F6: every task it missed was, at some quiescent
-    observation between the Wait's start and its return, in a threshold batch that a producer
-    had removed from the container and the flusher had not yet entered execution for."""
-    hist = an["hist"]  # hist[j+1] = observation after step j; hist[i0] = before the Wait started
-    for t in f["missing"]:
-        ok = False
-        for j in range(f["start"], f["ret"] + 1):
-            o = hist[j]
-            hidden = t not in o["cont"] and all(t not in h for h in o["parked"])
-            if hidden and (o["inflight"] > 0 or o["cmd"] or o["benter"]):
-                ok = True
-                break
-        if not ok:
-            return False
-    return True
-
-
 class C11(Property):
     id = "C11"
     title = "Periodic/bulk/chunk executors run every added task exactly once"
@@ -125,10 +95,11 @@ class C11(Property):
                   "containers: for every number of clients, threshold, interval and every schedule of atomic actions "
                   "(Add/Flush/Wait calls, flusher actions, ticks, clock advances, flusher idle-quit and restart, panicking "
                   "callbacks) accepted tasks = executed + lost-by-own-panic + still pending (conservation, no duplication); "
-                  "Wait covers earlier Adds under the explicit hand-over hypothesis, refuted without it (F6). The model is "
-                  "tied to core/executors by forced schedules: the observed log must be a trace of the LTS.")
+                  "a returned Wait covers every task accepted before it (no hypothesis; refuted for the pre-fix protocol, F6, "
+                  "in Pinned.v); runs with and without panics have the same core state and differ only in executed/lost. The "
+                  "model is tied to core/executors by forced schedules: the observed log must be a trace of the LTS.")
     level_note = ("Trusted: Coq kernel + vm_compute; hand-written LTS (each mutex section / channel operation / callback is one "
-                  "atomic action; commander receive and inflight-- merged); correspondence on generated forced schedules only; "
+                  "atomic action); correspondence on generated forced schedules only; "
                   "quiescence detection via runtime.Stack; core/timex/relativetime.go is replaced by a virtual clock.")
     rule = ("forced schedules: kind bulk/chunk/periodical, threshold 1..4 (bulk) or 1..8 with weights 0..4, 2..4 clients, "
             "6..28 controller actions (add/flush/wait/release/tick/clock, idle-quit patterns, in 35% of the cases the flusher is parked before "
@@ -148,7 +119,7 @@ class C11(Property):
     # ---- cases -------------------------------------------------------------------
     def corpus(self):
         cs = []
-        # F6: Add a,b -> flusher parked in callback; Add t1 returns; Add t2 blocks holding [t1,t2]; Wait; release
+        # F6 (fixed; regression): Add a,b -> flusher parked in callback; Add t1 returns; Add t2 blocks holding [t1,t2]; Wait; release
         for kind in ("bulk", "chunk", "periodical"):
             cs.append({"kind": kind, "maxw": 2, "interval": 1000, "bad": [], "nclients": 3,
                        "ops": [["add", 0, 1, 1], ["add", 0, 2, 1], ["add", 0, 3, 1], ["add", 1, 4, 1],
@@ -282,23 +253,12 @@ class C11(Property):
     def coq_case(self, case, obs):
         steps = clist(["(%s, %s)" % (self._act(s["act"]), self._obs(s["obs"])) for s in obs["steps"]])
         # an executor error (no quiescence) is a failing history: the drain flag makes final_ok fail
-        return "mkCase %s %s %s %s %s %s %d%%nat %s" % (
-            cz(case["maxw"]), cz(case["interval"]), clist([cz(b) for b in case["bad"]]), cbool(PATCHED),
+        return "mkCase %s %s %s %s %s %d%%nat %s" % (
+            cz(case["maxw"]), cz(case["interval"]), clist([cz(b) for b in case["bad"]]),
             cbool(bool(case.get("drain", True)) or bool(obs.get("err"))), cbool(bool(case.get("gateq"))),
             case["nclients"], steps)
 
     # ---- classification ----------------------------------------------------------
-    def known(self, case, obs):
-        if obs.get("err"):
-            return None
-        an = analyse(case, obs)
-        if not an["fails"]:
-            return None
-        for f in an["fails"]:
-            if f["kind"] != "wait" or not f6_shape(an, f):
-                return None
-        return F6_ID
-
     def nontrivial(self, case, obs):
         steps = obs["steps"]
         ncb = sum(1 for s in steps if s["act"][0] == "rel" and s["act"][1] >= 0)
@@ -325,7 +285,7 @@ class C11(Property):
             fs.append("flusher_blocked_on_barrier")
         an = analyse(case, obs)
         if any(f["kind"] == "wait" for f in an["fails"]):
-            fs.append("F6_wait_early")
+            fs.append("wait_returned_early")
         fs.append("steps<=%d" % (10 * (1 + len(steps) // 10)))
         return fs
 
